@@ -43,6 +43,13 @@ pub struct Scn {
     pub fin_c: bool,
     #[serde(default)]
     pub fin_s: bool,
+    /// fault: re-segmented retransmission — (from_client, segment index k, j): segment k is sent starting at the
+    /// first byte of segment k-j, so it repeats the bytes of the j segments before it (sender coalesced them)
+    #[serde(default)]
+    pub extend_back: Vec<(bool, usize, usize)>,
+    /// fault: retransmission of an arbitrary byte range — (from_client, a, b, position in the arrival order)
+    #[serde(default)]
+    pub extra: Vec<(bool, usize, usize, usize)>,
 }
 
 pub struct C09;
@@ -80,17 +87,45 @@ fn build_trace(s: &Scn, isn_c: u32, isn_s: u32, c_cuts: &[usize], s_cuts: &[usiz
     push(tcp::syn_ack(&h, s.client, s.server, isn_s, isn_c, 0, 0), (false, usize::MAX, 0, 0), &mut trace, &mut meta);
     let cs = segs(s.req.len(), c_cuts);
     let ss = segs(s.resp.len(), s_cuts);
-    for &(fc, k) in order {
+    let back = |fc: bool, k: usize, v: &[(usize, usize)]| -> usize {
+        let j = s.extend_back.iter().filter(|e| e.0 == fc && e.1 == k).map(|e| e.2).max().unwrap_or(0);
+        v[k.saturating_sub(j)].0
+    };
+    let extra_seg = |fc: bool, a: usize, b: usize| -> Option<pkt::Seg> {
+        let (stream, from, to, isn_a, ack) = if fc { (&s.req, s.client, s.server, isn_c, isn_s.wrapping_add(1)) } else { (&s.resp, s.server, s.client, isn_s, isn_c.wrapping_add(1).wrapping_add(s.req.len() as u32)) };
+        if a < b && b <= stream.len() {
+            Some(tcp::data(&h, from, to, isn_a.wrapping_add(1).wrapping_add(a as u32), ack, stream[a..b].to_vec(), 0, 0, pkt::ACK | pkt::PSH))
+        } else {
+            None
+        }
+    };
+    for (oi, &(fc, k)) in order.iter().enumerate() {
+        for &(efc, a, b, pos) in &s.extra {
+            if pos == oi {
+                if let Some(seg) = extra_seg(efc, a, b) {
+                    push(seg, (efc, usize::MAX - 1, a, b), &mut trace, &mut meta);
+                }
+            }
+        }
         if fc {
             if let Some(&(a, b)) = cs.get(k) {
+                let a = back(true, k, &cs).min(a);
                 let fl = if s.fin_c && b == s.req.len() { pkt::ACK | pkt::PSH | pkt::FIN } else { pkt::ACK | pkt::PSH };
                 let seg = tcp::data(&h, s.client, s.server, isn_c.wrapping_add(1).wrapping_add(a as u32), isn_s.wrapping_add(1), s.req[a..b].to_vec(), 0, 0, fl);
                 push(seg, (true, k, a, b), &mut trace, &mut meta);
             }
         } else if let Some(&(a, b)) = ss.get(k) {
+            let a = back(false, k, &ss).min(a);
             let fl = if s.fin_s && b == s.resp.len() { pkt::ACK | pkt::PSH | pkt::FIN } else { pkt::ACK | pkt::PSH };
             let seg = tcp::data(&h, s.server, s.client, isn_s.wrapping_add(1).wrapping_add(a as u32), isn_c.wrapping_add(1).wrapping_add(s.req.len() as u32), s.resp[a..b].to_vec(), 0, 0, fl);
             push(seg, (false, k, a, b), &mut trace, &mut meta);
+        }
+    }
+    for &(efc, a, b, pos) in &s.extra {
+        if pos >= order.len() {
+            if let Some(seg) = extra_seg(efc, a, b) {
+                push(seg, (efc, usize::MAX - 1, a, b), &mut trace, &mut meta);
+            }
         }
     }
     (trace, meta)
@@ -227,7 +262,29 @@ impl Prop for C09 {
                 j += 1;
             }
         }
-        let total = (nc + ns + 2) as u64;
+        // retransmission faults, one scenario in five
+        let mut extend_back = vec![];
+        let mut extra = vec![];
+        if r.chance(1, 5) {
+            for (fc, n) in [(true, nc), (false, ns)] {
+                if n >= 2 && r.chance(1, 2) {
+                    for _ in 0..r.urange(1, 2) {
+                        let k = r.urange(1, n - 1);
+                        extend_back.push((fc, k, r.urange(1, k.min(3))));
+                    }
+                }
+            }
+            for _ in 0..r.below(3) {
+                let fc = r.chance(1, 2);
+                let len = if fc { req.len() } else { resp.len() };
+                if len >= 2 {
+                    let a = r.usize_below(len - 1);
+                    let b = r.urange(a + 1, len);
+                    extra.push((fc, a, b, r.usize_below(order.len() + 2)));
+                }
+            }
+        }
+        let total = (nc + ns + 2 + extra.len()) as u64;
         Scn {
             kind: if r.chance(1, 4) { Kind::Unified } else { Kind::Http },
             framing: *r.pick(&[Framing::Ethernet, Framing::Ethernet, Framing::RawIp]),
@@ -249,6 +306,8 @@ impl Prop for C09 {
             via_loop: r.chance(1, 4),
             fin_c: r.chance(1, 8),
             fin_s: r.chance(1, 8),
+            extend_back,
+            extra,
         }
     }
 
@@ -259,7 +318,8 @@ impl Prop for C09 {
         let ns = segs(s.resp.len(), &s.s_cuts).len();
         // ---- reference: in order, one segment per direction, plain ISNs
         clock::arm(1_700_000_000_000);
-        let (rt, _) = build_trace(s, 1000, 5000, &[], &[], &in_order(1, 1));
+        let plain = Scn { extend_back: vec![], extra: vec![], ..s.clone() };
+        let (rt, _) = build_trace(&plain, 1000, 5000, &[], &[], &in_order(1, 1));
         let rout = sut::run_deliver(&cfg, &rt).map_err(|e| Violation::new("harness-error", "", e))?;
         let pick = |outs: &[sut::PktOut], kind: &str| -> Vec<String> { outs.iter().flat_map(|o| o.obs.iter()).filter(|o| o.kind == kind).map(|o| o.text.clone()).collect() };
         let ref_req = pick(&rout, "http_request");
@@ -287,6 +347,7 @@ impl Prop for C09 {
         if out_of_order {
             st.fault("reorder");
         }
+        st.fault_n("retransmission_coalesced_with_earlier_segments", s.extend_back.len() as u64);
         if wrap_c || wrap_s {
             st.fault("isn_wraps_inside_stream");
         }
@@ -303,7 +364,9 @@ impl Prop for C09 {
             let w = if dir_client { wrap_c } else { wrap_s };
             // the two directions interleaved so that server data precedes the end of the client data
             let interleaved = s.order.iter().position(|o| !o.0).map(|p| s.order[p..].iter().any(|o| o.0)).unwrap_or(false);
-            if w {
+            if s.extend_back.iter().any(|e| e.0 == dir_client) || s.extra.iter().any(|e| e.0 == dir_client) {
+                "retransmission"
+            } else if w {
                 "wrap"
             } else if out_of_order {
                 "order"
@@ -321,6 +384,9 @@ impl Prop for C09 {
         for (i, o) in outs.iter().enumerate() {
             let (fc, k, a, b) = meta[i];
             if k != usize::MAX {
+                if k == usize::MAX - 1 {
+                    st.fault("retransmitted_byte_range");
+                }
                 if fc {
                     delivered_c.push((a, b));
                 } else {
@@ -411,6 +477,23 @@ impl Prop for C09 {
             }
             x
         };
+        // without the retransmission faults
+        if !s.extend_back.is_empty() || !s.extra.is_empty() {
+            let mut x = s.clone();
+            x.extend_back.clear();
+            x.extra.clear();
+            out.push(x);
+            for i in 0..s.extend_back.len() {
+                let mut x = s.clone();
+                x.extend_back.remove(i);
+                out.push(x);
+            }
+            for i in 0..s.extra.len() {
+                let mut x = s.clone();
+                x.extra.remove(i);
+                out.push(x);
+            }
+        }
         // in-order delivery
         {
             let mut x = s.clone();
